@@ -8,7 +8,20 @@ use dasp_frame::Frame;
 use dasp_ring_buffer as ring_buffer;
 use dasp_sample::Sample;
 use dasp_signal::{self as signal, Signal};
+use std::alloc::{GlobalAlloc, Layout, System};
+use std::sync::atomic::{AtomicUsize, Ordering};
 use std::cell::Cell;
+
+/// counting allocator: lets the bus search observe heap growth (the backlog is private)
+struct Counting;
+static ALLOCS: AtomicUsize = AtomicUsize::new(0);
+unsafe impl GlobalAlloc for Counting {
+    unsafe fn alloc(&self, l: Layout) -> *mut u8 { ALLOCS.fetch_add(1, Ordering::SeqCst); System.alloc(l) }
+    unsafe fn dealloc(&self, p: *mut u8, l: Layout) { System.dealloc(p, l) }
+    unsafe fn realloc(&self, p: *mut u8, l: Layout, n: usize) -> *mut u8 { ALLOCS.fetch_add(1, Ordering::SeqCst); System.realloc(p, l, n) }
+}
+#[global_allocator]
+static GLOBAL: Counting = Counting;
 use std::panic;
 use std::rc::Rc;
 
@@ -192,6 +205,20 @@ fn run_case(target: &str, seed: u64, len: usize) -> (String, String) {
             for i in k..steps { rec!(sa.is_exhausted(), i >= a.len()); rec!(sa.next(), at(&a, i)); }
         }
         "FromIterator::next" | "FromIterator::is_exhausted" | "from_iter" => {
+            // a NON-FUSED iterator (legal for Iterator): yields a, None, then more items: after the first None the signal
+            // must stay exhausted and silent and must never poll the iterator again
+            {
+                let polls = Rc::new(Cell::new(0usize)); let p3 = polls.clone();
+                let items: Vec<Option<F2>> = a.iter().map(|f| Some(*f)).chain(std::iter::once(None)).chain(b.iter().map(|f| Some(*f))).collect();
+                let mut k = 0usize;
+                let it = std::iter::from_fn(move || { p3.set(p3.get() + 1); let r = if k < items.len() { items[k] } else { Some([7, 7]) }; k += 1; r });
+                let mut s = signal::from_iter(it);
+                for i in 0..(a.len() + 4) {
+                    rec!(s.is_exhausted(), i >= a.len());
+                    rec!(s.next(), at(&a, i));
+                    rec!(polls.get(), (i + 2).min(a.len() + 1));
+                }
+            }
             let pulled = Rc::new(Cell::new(0usize)); let p2 = pulled.clone();
             let it = a.clone().into_iter().inspect(move |_| p2.set(p2.get() + 1));
             let mut s = signal::from_iter(it);
@@ -321,7 +348,25 @@ fn run_case(target: &str, seed: u64, len: usize) -> (String, String) {
                 }
             }}; }
             if rc {
-                let (mut a, mut b) = sa.fork(rb).by_rc();
+                // first use through by_ref (leaving one branch ahead), then RE-SPLIT with by_rc
+                let mut fork = sa.fork(rb);
+                {
+                    let (mut a, mut b) = fork.by_ref();
+                    let pre = (seed % 3) as usize;
+                    for i in 0..pre.min(cap) {
+                        if seed % 2 == 0 { rec!(b.next(), at(&data, pb)); pb += 1; } else { rec!(a.next(), at(&data, pa)); pa += 1; }
+                        let _ = i;
+                    }
+                }
+                // re-plan the schedule from the current positions
+                let (mut qa, mut qb) = (pa, pb);
+                for s_ in sched.iter_mut() {
+                    let a_ok = qa + 1 <= qb + cap; let b_ok = qb + 1 <= qa + cap;
+                    let pick_a = if *s_ { a_ok } else { !b_ok };
+                    *s_ = pick_a;
+                    if pick_a { qa += 1 } else { qb += 1 }
+                }
+                let (mut a, mut b) = fork.by_rc();
                 drive!(a, b);
             } else {
                 let mut fork = sa.fork(rb);
@@ -420,6 +465,51 @@ fn run_case(target: &str, seed: u64, len: usize) -> (String, String) {
                 }
             }
         }
+        t if t.starts_with("SharedNode::") => {
+            use dasp_signal::bus::SignalBus;
+            // pseudo-random sequences of send / next(output i) / drop(output i) against an ideal model:
+            // model = positions of each live output in the common history, pulled = frames pulled so far
+            let data: Vec<F2> = (0..64).map(|i| [i as i16 + 1, -(i as i16) - 1]).collect();
+            let (sa, ca) = src(data.clone());
+            let bus = sa.bus();
+            let mut outs: Vec<Option<dasp_signal::bus::Output<Src<F2>>>> = vec![];
+            let mut pos: Vec<usize> = vec![];
+            let mut pulled = 0usize;
+            let nops = 4 + 3 * len;
+            for _ in 0..nops {
+                let live: Vec<usize> = (0..outs.len()).filter(|&i| outs[i].is_some()).collect();
+                let choice = rng.next() % 8;
+                if live.is_empty() || (choice == 0 && outs.len() < 5) {
+                    // a new output starts with the first frame nobody has pulled yet
+                    outs.push(Some(bus.send())); pos.push(pulled);
+                } else if choice == 1 {
+                    let i = live[(rng.next() as usize) % live.len()];
+                    outs[i] = None;
+                } else {
+                    let i = live[(rng.next() as usize) % live.len()];
+                    let o = outs[i].as_mut().unwrap();
+                    rec!(o.pending_frames(), pulled - pos[i]);
+                    rec!(o.next(), at(&data, pos[i]));
+                    pos[i] += 1;
+                    if pos[i] > pulled { pulled = pos[i]; }
+                    rec!(ca.get(), pulled);          // the source is pulled once per distinct frame
+                }
+                for (i, o) in outs.iter().enumerate() { if let Some(o) = o { rec!(o.pending_frames(), pulled - pos[i]); } }
+            }
+            // backlog retention: once every live output has caught up and they are pulled in step, the backlog stays
+            // empty, so the bus performs no further heap operation (observed with the counting allocator)
+            if outs.iter().all(|o| o.is_none()) { outs.push(Some(bus.send())); pos.push(pulled); }
+            let big: Vec<F2> = vec![];
+            let _ = big;
+            for i in 0..outs.len() { if let Some(o) = outs[i].as_mut() { while o.pending_frames() > 0 { let _ = o.next(); pos[i] += 1; } } }
+            let mut before = 0usize;
+            for round in 0..400 {
+                if round == 200 { before = ALLOCS.load(Ordering::SeqCst); }
+                for o in outs.iter_mut() { if let Some(o) = o { let _ = o.next(); } }
+            }
+            let grown = ALLOCS.load(Ordering::SeqCst) - before;
+            rec!(grown, 0usize);
+        }
         _ => {}
     }
     (got.join(" | "), want.join(" | "))
@@ -430,7 +520,7 @@ const TARGETS: &[&str] = &[
     "OffsetAmpPerChannel::next", "Map::next", "ZipMap::next", "Inspect::next", "ClipAmp::next", "Delay::next",
     "RefMut::next", "FromIterator::next", "FromInterleavedSamplesIterator::next", "UntilExhausted::next",
     "Take::next", "IntoInterleavedSamples::next_sample", "Buffered::next", "Buffered::next_frames",
-    "BranchRefA::next", "BranchRcA::next", "Converter::next", "MulHz::next", "Linear::interpolate", "Windower::size_hint",
+    "BranchRefA::next", "BranchRcA::next", "Converter::next", "MulHz::next", "Linear::interpolate", "Windower::size_hint", "SharedNode::next_frame",
 ];
 
 fn field<'a>(js: &'a str, k: &str) -> &'a str {
